@@ -106,6 +106,8 @@ NOISE_FULL = NOISE_DESIGN + ("n_nonl_braces", "n_cr", "n_near_tag", "n_unicode")
 NOISE_SMALL = ("n_nonl", "n_nonl_braces", "n_braces", "n_empty", "n_crlf")
 NOISE_TINY = ("n_nonl_braces", "n_braces", "n_text")
 
+# the 14 of DESIGN.md for the length-3 product (the other three are covered in all sequences of length <= 2)
+PAYLOAD_MAIN = tuple(n for n in PAYLOADS if n not in ("p_np_nested", "p_near_reserved", "p_literal_str"))
 PAYLOAD_SMALL = ("p_flat", "p_nested", "p_brace_str", "p_tag_multiline", "p_np_bool_str", "p_empty")
 PAYLOAD_TINY = ("p_flat", "p_nested", "p_tag_in_value", "p_empty")
 PAYLOAD_CLOCK = ("p_flat", "p_nested", "p_empty")
